@@ -1,5 +1,6 @@
 """C14 - composition wrappers equal the explicit composition of their parts."""
 import os, json, glob, copy, inspect
+from fractions import Fraction
 import common
 from units import BLOCK
 from props import c14_trees as T
@@ -687,6 +688,97 @@ def parts_canon(c, w):
     return ('ok', str(v[1])) if v[0] == 0 else ('err', v[1])     # insertion order is compared too
 
 
+
+# ---------------------------------------------------------------- wrappers that are not embedded in the model: implementation vs by hand
+def unembedded_checks(ctx, rng, count):
+    """VotingSystem, UnusedVotesDistributor (depth 1), ByConstituency with a preselector: the declarative clause only"""
+    import votelib, votelib.evaluate.core as core, votelib.evaluate.proportional as prop, votelib.evaluate.threshold as thr
+    import votelib.component.quota as quota
+    g = Gen(rng)
+    bad = 0
+    for i in range(count):
+        ctx.evaluations += 1
+        kind = ('vsys', 'unused', 'presel')[i % 3]
+        ctx.dist['unembedded:' + kind] += 1
+        parties = T.PARTIES[:rng.randint(2, 5)]
+        if kind == 'vsys':
+            c = g.case(rng.choice([1, 2, 3]))
+            built = T.Built(c['tree'])
+            pos, kw = split_call(c)
+            ri = common.call_impl(lambda: votelib.VotingSystem('x', built.obj).evaluate(
+                copy.deepcopy(c['votes']), *copy.deepcopy(pos), **copy.deepcopy(kw)), 10)
+            rw = impl_result(c)             # the system wrapper adds nothing to the wrapped evaluator
+            case, want = dict(c, unit='vsys'), rw
+        elif kind == 'unused':
+            names = [rng.choice(['hare', 'droop', 'hagenbach_bischoff']) for _ in range(rng.randint(1, 2))]
+            stages = [prop.LargestRemainder(rng.choice(['hare', 'droop'])) if rng.random() < 0.5 else prop.QuotaDistributor(rng.choice(['hare', 'droop']))
+                      for _ in range(len(names) + 1)]
+            votes = {p: rng.randint(1, 400) for p in parties}
+            n = rng.randint(1, 12)
+            prev = g.gains(parties) if rng.random() < 0.3 else {}
+            case = dict(unit='unused', quotas=names, stages=[type(x).__name__ + ':' + str(getattr(x, 'quota_function', '')) for x in stages], votes=votes, n=n, prev=prev)
+            ri = common.call_impl(lambda: core.UnusedVotesDistributor(stages, names).evaluate(dict(votes), n, prev_gains=dict(prev)), 10)
+
+            def by_hand():
+                elected, v, left = dict(prev), dict(votes), n
+                for k, st in enumerate(stages):
+                    res = st.evaluate(v, left)
+                    for cnd, sts in res.items():
+                        elected[cnd] = elected.get(cnd, 0) + sts
+                    if k < len(names):
+                        q = quota.construct(names[k])(sum(v.values()), left)
+                        nv = {}
+                        for cnd, x in v.items():
+                            used = q * res.get(cnd, 0)
+                            if x < used:
+                                raise core.VotingSystemError('more votes used than cast')
+                            nv[cnd] = x - used
+                        v, left = nv, left - sum(res.values())
+                return elected
+            want = common.call_impl(by_hand, 10)
+        else:
+            consts = T.CONSTS[:rng.randint(2, 4)]
+            votes = g.nested_votes(consts, parties)
+            ev = rng.choice([prop.HighestAverages('d_hondt'), prop.LargestRemainder('hare'), core.Plurality()])
+            seated = rng.random() < 0.3
+            pre = core.Plurality() if seated else rng.choice([thr.RelativeThreshold(Fraction(rng.randint(1, 6), 20)),
+                                                              thr.AbsoluteThreshold(rng.randint(5, 200))])
+            app = rng.choice([None, rng.randint(1, 4), {c: rng.randint(0, 3) for c in consts}])
+            n = rng.randint(1, 6)
+            case = dict(unit='presel', votes=votes, ev=type(ev).__name__, pre=type(pre).__name__, app=app, n=n)
+            ri = common.call_impl(lambda: core.ByConstituency(ev, app, preselector=pre).evaluate(copy.deepcopy(votes), n), 10)
+
+            def by_hand2():
+                nat = {}
+                for v in votes.values():
+                    for p, x in v.items():
+                        nat[p] = nat.get(p, 0) + x
+                keep = pre.evaluate(nat, n) if seated else pre.evaluate(nat)
+                seats = {c: app for c in votes} if isinstance(app, int) else (app if isinstance(app, dict) else {c: n for c in votes})
+                out, empty = {}, []
+                for c, v in votes.items():
+                    if seats.get(c, 0) == 0:
+                        empty.append(c)
+                        continue
+                    out[c] = ev.evaluate({p: x for p, x in v.items() if p in keep}, seats[c])
+                if empty and not out:
+                    raise T.AllZero()
+                for c in empty:
+                    out[c] = type(next(iter(out.values())))()
+                return out
+            want = common.call_impl(by_hand2, 10)
+        try:
+            a, b = wire_of_result(ri), wire_of_result(want)
+        except Exception as exc:   # noqa
+            continue
+        ctx.nontrivial.add(common.case_hash(case))
+        if a != b and not (a[0] == 'err' and b[0] == 'err'):
+            bad += 1
+            ctx.checker_false += 1
+            ctx.violations.append(dict(stream='unembedded', case=case, impl=str(ri)[:500], model='by hand: ' + str(want)[:500],
+                                       why='%s differs from the by-hand composition: wrapper %s, by hand %s' % (kind, short(a), short(b))))
+    ctx.streams['unembedded'] = dict(cases=count, deviations=bad)
+
 # ---------------------------------------------------------------- entry points
 def corpus():
     for p in sorted(glob.glob(os.path.join(common.VERIF, 'corpus', ID, '*.json'))):
@@ -712,9 +804,14 @@ def explore(ctx, widen=1):
     by_unit(ctx, 'bind', [c for c in bind_cases(ctx.rng, ctx.n(600, 6000) * widen) if bind_valid(c)])
     by_unit(ctx, 'tie-replace', tie_cases(ctx.rng, ctx.n(500, 5000) * widen))
     by_unit(ctx, 'parts', parts_cases(ctx.rng, ctx.n(300, 3000) * widen))
-    by_unit(ctx, 'boundary', gen_boundary(ctx.rng, ctx.n(400, 6000) * widen))
-    by_unit(ctx, 'random-trees', gen_random(ctx.rng, ctx.n(900, 20000) * widen))
+    by_unit(ctx, 'boundary', gen_boundary(ctx.rng, ctx.n(1200, 8000) * widen))
+    by_unit(ctx, 'random-trees', gen_random(ctx.rng, ctx.n(3000, 24000) * widen))
+    unembedded_checks(ctx, ctx.rng, ctx.n(900, 6000) * widen)
 
 
 def replay(ctx, case, stream=None):
+    if case.get('unit') in ('vsys', 'unused', 'presel'):
+        # implementation-side clause of a wrapper without a model: re-run that stream with the recorded seed
+        unembedded_checks(ctx, common.mk_rng(ctx.seed, ID + '/unembedded'), 450)
+        return
     by_unit(ctx, 'replay', [case])
